@@ -437,3 +437,129 @@ Section Cut0Rigid.
     stokes_integration 0%T pi pj a.
   Proof. intros H. rewrite !stokes_cut0_is_nocut. now apply stokes_nocut_orthogonal. Qed.
 End Cut0Rigid.
+
+(** * 5. (c) the 48 signed axis permutations, with ANY cut-off in place *)
+Section SignedPerm.
+  Context {T : Type} {O : Ops T} {RL : RingLaws T} {OL : OrderLaws T} {FL : FieldLaws T} {AL : AbsLaws T}.
+  Add Ring TRingSim4 : (@ring_th T O RL).
+
+  Lemma sumf_permutation {A} (l l' : list A) (f : A -> T) : Permutation l l' -> sumf l f = sumf l' f.
+  Proof.
+    induction 1 as [|x l l' _ IH|x y l|l l' l'' _ IH1 _ IH2].
+    - reflexivity.
+    - now rewrite !sumf_cons, IH.
+    - rewrite !sumf_cons. ring.
+    - now rewrite IH1.
+  Qed.
+
+  Lemma tabs_opp_al (x : T) : tabs (- x)%T = tabs x.
+  Proof.
+    destruct (tle_total 0%T x) as [H|H].
+    - rewrite (abs_pos x H). rewrite abs_neg; [ring|].
+      apply topp_le in H. replace (- 0)%T with (0 : T)%T in H by ring. exact H.
+    - rewrite (abs_neg x H). apply abs_pos. now apply topp_nonneg.
+  Qed.
+
+  Variable sigma : nat -> nat.
+  Variables e0 e1 e2 : T.
+  Hypothesis Hperm : Permutation [sigma 0; sigma 1; sigma 2] [0; 1; 2].
+  Hypothesis He0 : e0 = 1%T \/ e0 = (- (1))%T.
+  Hypothesis He1 : e1 = 1%T \/ e1 = (- (1))%T.
+  Hypothesis He2 : e2 = 1%T \/ e2 = (- (1))%T.
+
+  Definition ed (d : nat) : T := match d with 0 => e0 | 1 => e1 | _ => e2 end.
+  (** [p |-> (e0 * p[sigma 0], e1 * p[sigma 1], e2 * p[sigma 2])] *)
+  Definition sperm (p : @vec T) : vec :=
+    mkv (e0 * coord (sigma 0) p)%T (e1 * coord (sigma 1) p)%T (e2 * coord (sigma 2) p)%T.
+
+  Lemma ed_cases d : ed d = 1%T \/ ed d = (- (1))%T.
+  Proof. destruct d as [|[|d]]; cbn [ed]; assumption. Qed.
+  Lemma ed_sq d : (ed d * ed d)%T = 1%T.
+  Proof. destruct (ed_cases d) as [E|E]; rewrite E; ring. Qed.
+  Lemma tabs_ed d x : tabs (ed d * x)%T = tabs x.
+  Proof.
+    destruct (ed_cases d) as [E|E]; rewrite E.
+    - now replace (1 * x)%T with x by ring.
+    - replace (- (1) * x)%T with (- x)%T by ring. apply tabs_opp_al.
+  Qed.
+  Lemma coord_sperm d p : d < 3 -> coord d (sperm p) = (ed d * coord (sigma d) p)%T.
+  Proof. intros Hd. destruct d as [|[|[|d]]]; try lia; reflexivity. Qed.
+
+  Lemma sperm_linear : vlinear sperm.
+  Proof.
+    split.
+    - intros a b. unfold sperm. rewrite !coord_vadd. unfold vadd at 1. unfold mkv, vx, vy, vz. simpl.
+      f_equal; [f_equal|]; ring.
+    - intros c v. unfold sperm. rewrite !coord_vscale. unfold vscale at 1. unfold mkv, vx, vy, vz. simpl.
+      f_equal; [f_equal|]; ring.
+  Qed.
+
+  Lemma sperm_dot x y : vdot (sperm x) (sperm y) = vdot x y.
+  Proof.
+    transitivity (sumf [sigma 0; sigma 1; sigma 2] (fun d => (coord d x * coord d y)%T)).
+    - unfold sperm, vdot, mkv, vx, vy, vz. cbn [fst snd sumf fold_right].
+      pose proof (ed_sq 0) as Q0. pose proof (ed_sq 1) as Q1. pose proof (ed_sq 2) as Q2. cbn [ed] in Q0, Q1, Q2.
+      transitivity (((e0 * e0) * (coord (sigma 0) x * coord (sigma 0) y) +
+                     (e1 * e1) * (coord (sigma 1) x * coord (sigma 1) y)) +
+                     (e2 * e2) * (coord (sigma 2) x * coord (sigma 2) y))%T; [ring|].
+      rewrite Q0, Q1, Q2. ring.
+    - rewrite (sumf_permutation _ _ _ Hperm). apply vdot_coords.
+  Qed.
+
+  Variable cut : T.
+  Let act := @cut_active T O cut.
+
+  Lemma sx_sperm b n d i ii : d < 3 -> sx (map sperm b) n d i ii = (ed d * sx b n (sigma d) i ii)%T.
+  Proof. intros Hd. unfold sx. rewrite (nthv_map_lin sperm sperm_linear). now apply coord_sperm. Qed.
+
+  Lemma quad_sum_sperm b n d (Y : nat -> T) : d < 3 ->
+    sumf (quad act (map sperm b) n d) (fun p => (fst p * Y (snd p))%T) =
+    (ed d * sumf (quad act b n (sigma d)) (fun p => (fst p * Y (snd p))%T))%T.
+  Proof.
+    intros Hd. unfold quad. rewrite !sumf_flat_map, <- sumf_scale. apply sumf_ext. intros i _.
+    unfold quad_seg. rewrite !(sx_sperm b n d i _ Hd).
+    replace (ed d * sx b n (sigma d) i 4 - ed d * sx b n (sigma d) i 0)%T
+      with (ed d * (sx b n (sigma d) i 4 - sx b n (sigma d) i 0))%T by ring.
+    replace (ed d * sx b n (sigma d) i 1 - ed d * sx b n (sigma d) i 0)%T
+      with (ed d * (sx b n (sigma d) i 1 - sx b n (sigma d) i 0))%T by ring.
+    replace (act (ed d * (sx b n (sigma d) i 4 - sx b n (sigma d) i 0))%T)
+      with (act (sx b n (sigma d) i 4 - sx b n (sigma d) i 0)%T)
+      by (unfold act, cut_active; now rewrite tabs_ed).
+    destruct (act _).
+    - rewrite !sumf_map, <- sumf_scale. apply sumf_ext. intros ii _. cbn [fst snd].
+      rewrite !bcoef_lin. ring.
+    - cbn [sumf fold_right]. ring.
+  Qed.
+
+  Lemma bil_sperm ib ni jb nj d f : d < 3 ->
+    bil (quad act (map sperm ib) ni d) (quad act (map sperm jb) nj d) f =
+    bil (quad act ib ni (sigma d)) (quad act jb nj (sigma d)) f.
+  Proof.
+    intros Hd. unfold bil.
+    rewrite (quad_sum_sperm ib ni d
+               (fun k => sumf (quad act (map sperm jb) nj d) (fun q => (fst q * f k (snd q))%T)) Hd).
+    rewrite <- sumf_scale. apply sumf_ext. intros p _.
+    rewrite (quad_sum_sperm jb nj d (fun l => f (snd p) l) Hd).
+    transitivity (((ed d * ed d) * (fst p * sumf (quad act jb nj (sigma d)) (fun q => (fst q * f (snd p) (snd q))%T)))%T);
+      [ring|]. rewrite ed_sq. ring.
+  Qed.
+
+  Theorem stokes_outer_sperm pi pj :
+    stokes_outer act (map sperm pi) (map sperm pj) = stokes_outer act pi pj.
+  Proof.
+    rewrite !stokes_outer_dsum, !(sample_pts_lin sperm sperm_linear), !map_length. unfold dsum.
+    set (ib := sample_pts 5 pi). set (jb := sample_pts 5 pj).
+    rewrite (sumf_ext [0; 1; 2] _ (fun d => bil (quad act ib (length pi) (sigma d)) (quad act jb (length pj) (sigma d))
+                                               (get2 (load_stokes_entries ib jb)))).
+    - rewrite <- (sumf_map sigma [0; 1; 2]
+                    (fun d' => bil (quad act ib (length pi) d') (quad act jb (length pj) d') (get2 (load_stokes_entries ib jb)))).
+      cbn [map]. apply sumf_permutation. exact Hperm.
+    - intros d Hd. assert (Hd3 : d < 3) by (cbn [In] in Hd; lia).
+      rewrite (bil_sperm ib (length pi) jb (length pj) d _ Hd3).
+      apply bil_ext. intros p q _ _. apply (load_iso sperm sperm_linear sperm_dot).
+  Qed.
+
+  Theorem stokes_integration_sperm pi pj a :
+    stokes_integration cut (map sperm pi) (map sperm pj) a = stokes_integration cut pi pj a.
+  Proof. unfold stokes_integration, stokes_gen. fold act. now rewrite stokes_outer_sperm. Qed.
+End SignedPerm.
